@@ -366,24 +366,24 @@ Definition dispatch (kind : string) (args : list string) : string :=
    connection or socket, with the model function that covers it.  A site that is not listed here comes back
    as UNMODELLED:<site>, i.e. a correspondence violation. *)
 Definition send_sites : list (string * string) :=
-  [("session.go:arpRequest", "Model.Send.send_arp_request");
-   ("layer_icmp.go:icmp4SendPacket", "Model.Send.icmp4_send_packet");
-   ("layer_icmp.go:icmp6SendPacket", "Model.Send.icmp6_send_packet");
-   ("handlers/arp_spoofer/arp.go:RequestRaw", "Model.SendNdp.send_arp (op 1)");
-   ("handlers/arp_spoofer/arp.go:reply", "Model.SendNdp.send_arp (op 2)");
-   ("handlers/dhcp4_spoofer/send.go:sendDHCP4Packet", "Model.SendUdp.send_dhcp4_packet");
-   ("handlers/dhcp4_spoofer/client.go:SendDiscoverPacket", "Model.SendUdp.send_discover");
-   ("handlers/dns_naming/mdns.go:sendMDNS", "Model.SendUdp.send_mdns");
-   ("handlers/dns_naming/nbns.go:sendNBNS", "Model.SendUdp.send_nbns");
-   ("handlers/dns_naming/ssdp.go:SendSSDPSearch", "Model.SendUdp.send_ssdp_search");
-   ("nic.go:ExecPing", "exempt: OS datagram socket, the kernel builds the frame");
-   ("socketconn.go:WriteTo", "exempt: implementation of the connection");
-   ("socketconn.go:Sendto", "exempt: implementation of the connection")].
+  [("session.go:arpRequest*1", "Model.Send.send_arp_request");
+   ("layer_icmp.go:icmp4SendPacket*1", "Model.Send.icmp4_send_packet");
+   ("layer_icmp.go:icmp6SendPacket*1", "Model.Send.icmp6_send_packet");
+   ("handlers/arp_spoofer/arp.go:RequestRaw*1", "Model.SendNdp.send_arp (op 1)");
+   ("handlers/arp_spoofer/arp.go:reply*1", "Model.SendNdp.send_arp (op 2)");
+   ("handlers/dhcp4_spoofer/send.go:sendDHCP4Packet*1", "Model.SendUdp.send_dhcp4_packet");
+   ("handlers/dhcp4_spoofer/client.go:SendDiscoverPacket*1", "Model.SendUdp.send_discover");
+   ("handlers/dns_naming/mdns.go:sendMDNS*2", "Model.SendUdp.send_mdns");
+   ("handlers/dns_naming/nbns.go:sendNBNS*1", "Model.SendUdp.send_nbns");
+   ("handlers/dns_naming/ssdp.go:SendSSDPSearch*1", "Model.SendUdp.send_ssdp_search");
+   ("nic.go:ExecPing*1", "exempt: OS datagram socket, the kernel builds the frame");
+   ("socketconn.go:WriteTo*1", "exempt: implementation of the connection");
+   ("socketconn.go:Sendto*1", "exempt: implementation of the connection")].
 
-Definition site_key (tok : string) : string :=
-  match Text.split "*"%char tok with k :: _ => k | [] => tok end.
+(* a token is file:function*count: the number of send calls inside the function is part of the key, so a
+   second send added to a listed function is noticed as well *)
 Definition show_site (tok : string) : string :=
-  if existsb (fun s => String.eqb (fst s) (site_key tok)) send_sites then tok else "UNMODELLED:" ++ tok.
+  if existsb (fun s => String.eqb (fst s) tok) send_sites then tok else "UNMODELLED:" ++ tok.
 
 Definition dispatch_line (l : string) : string :=
   match words l with
